@@ -234,6 +234,13 @@ class Tr:
             if nm == "operator[]" and tys == ["V", "Z"]:
                 return "C", "(nthz cpx0 %s %s)" % tuple(sa)
             raise TranslateError("operator call %s(%s) not understood" % (nm, ",".join(tys)))
+        if k == "CXXMemberCallExpr":
+            me = kids(n)[0]
+            if me.get("kind") == "MemberExpr" and me.get("name") == "empty" and len(kids(n)) == 1:
+                t, a = self.ex(kids(me)[0], env)
+                if t == "F":
+                    return "B", "(negb (file_given %s))" % a       # impedance_file.empty()
+            raise TranslateError("member call %s not understood" % me.get("name"))
         if k in ("CXXTemporaryObjectExpr", "CXXConstructExpr", "InitListExpr"):
             t = ty_of(qtype(n), strict=False)
             args = [self.ex(c, env) for c in kids(n)]
